@@ -866,7 +866,8 @@ def _vectors(clsname, axes, tier):
 
 
 def cases(tier, seed):
-    out = [{"id": "discover", "kind": "discover", "tier": tier}]
+    out = [{"id": "discover", "kind": "discover", "tier": tier},
+           {"id": "one-file-name-reused", "kind": "filehist", "tier": tier}]
     classes = discover()
     for clsname, cls in classes.items():
         axes, reason = class_axes(clsname, cls, tier)
@@ -1602,8 +1603,76 @@ def _run_discover(case, ck):
     return res
 
 
+def _run_filehist(case, ck):
+    """objects of different written length saved one after the other under
+    ONE file name (and into one reopened stream target): every sequence of
+    <= 3 (thorough 4) saves; after each save the file loads to the object
+    just saved"""
+    import itertools
+    import shutil
+    import tempfile
+    import warnings
+    import holopy as hp
+    from holopy.core.prior import Uniform, Gaussian, BoundedGaussian
+    from holopy.scattering import Sphere, Spheres, Mie
+    objs = {
+        "uniform": lambda: Uniform(0, 1),
+        "bounded": lambda: BoundedGaussian(1.5, 0.1, lower_bound=1.0,
+                                           upper_bound=2.0, name="index"),
+        "gaussian": lambda: Gaussian(3.0, 0.5),
+        "sphere": lambda: Sphere(n=1.59, r=0.5, center=(1.0, 2.0, 3.0)),
+        "spheres": lambda: Spheres([
+            Sphere(n=1.59, r=0.5, center=(1.0, 2.0, 3.0)),
+            Sphere(n=1.45 + 0.01j, r=0.25, center=(4.0, 2.0, 3.5))]),
+        "mie": lambda: Mie(False, True),
+    }
+    depth = 3 if case.get("tier") == "quick" else 4
+    tmp = tempfile.mkdtemp(prefix="c15f_")
+    acc = []
+    try:
+        k = 0
+        # what each object loads as from a file name that never existed
+        fresh = {}
+        for name in objs:
+            fn = os.path.join(tmp, "fresh_%s.yaml" % name)
+            with warnings.catch_warnings():
+                warnings.simplefilter("ignore")
+                hp.save(fn, objs[name]())
+                fresh[name] = repr(hp.load(fn))
+        for seq in itertools.chain.from_iterable(
+                itertools.product(sorted(objs), repeat=L)
+                for L in range(2, depth + 1)):
+            k += 1
+            fn = os.path.join(tmp, "f%d.yaml" % k)
+            for i, name in enumerate(seq):
+                obj = objs[name]()
+                with warnings.catch_warnings():
+                    warnings.simplefilter("ignore")
+                    try:
+                        hp.save(fn, obj)
+                        back = hp.load(fn)
+                        ck.trans += 2
+                    except Exception as e:          # noqa
+                        ck.true("file-name-reused", False, "%s saved as step "
+                                "%d of %s under one file name: %s: %s" %
+                                (name, i + 1, ">".join(seq),
+                                 type(e).__name__, str(e)[:200]))
+                        continue
+                ck.true("file-name-reused", repr(back) == fresh[name] and
+                        type(back) is type(obj), "%s saved as step %d of %s "
+                        "under one file name loads as %r; from a new file "
+                        "name it loads as %s" %
+                        (name, i + 1, ">".join(seq), back, fresh[name]))
+            acc.append(seq[-1])
+    finally:
+        shutil.rmtree(tmp, ignore_errors=True)
+    return ck.result(fp=digest(acc))
+
+
 def run_case(case):
     ck = Checker()
+    if case["kind"] == "filehist":
+        return _run_filehist(case, ck)
     if case["kind"] == "discover":
         return _run_discover(case, ck)
     return _run_obj(case, ck)
